@@ -107,5 +107,20 @@ CHECKS["C10"] = {
     "level_note": "Share tolerance 6 sigma + 1/n (stated in the failure message); trusts the harness world.",
 }
 
+CHECKS["C08"] = {
+    "level": "exploration",
+    "rule": "1-2 services (no / custom-with-503 / custom-without-503 error pages, default or custom health path) and 2-14 generated "
+            "commands from {stop(msg), pause, resume, deploy (optionally changing the page directory), rollout deploy/set/stop}; after "
+            "every step 8 requests per service (GET/POST/HEAD on plain paths and on the health path with look-alikes) through the full "
+            "middleware chain; messages from a hostile pool (markup, template syntax, entities, NUL, multi-byte, 4 kB) and random rune "
+            "strings; oracle: state machine from the reference model, page identity by marker, message round-trip "
+            "(HTML-unescape(region) == message, no raw < > or bare &), targets' request logs silent while not running. "
+            "Non-trivial = a message containing a character that must be escaped, or >=3 state changes. Distinct by plan hash.",
+    "layers": [L("TestVF_C08", 800, 10000)],
+    "technique": "stateful property-based testing (rapid): generated command histories and messages; model state machine + HTML round-trip oracle",
+    "level_text": "Bounded random exploration of histories x messages with a round-trip oracle that does not re-implement the escaper.",
+    "level_note": "Trusts the harness world; requests enter through Server.buildHandler() by direct call.",
+}
+
 ALL_IDS = ["C%02d" % i for i in range(1, 21)]
 NOT_APPLICABLE = {pid: "check not built yet (work in progress; see DESIGN.md section 8 for the order of work)" for pid in ALL_IDS if pid not in CHECKS}
